@@ -319,10 +319,32 @@ void NewRecord(LargeWord NStart) {
 #endif
 }
 
+/*--- pending relocation/export entries that never made it into a record
+      (a pass or source that produced no code) do not belong to the next one ---*/
+
+static void DiscardPatches(void) {
+    while (PatchList) {
+        PatchLast = PatchList;
+        PatchList = PatchLast->Next;
+        free(PatchLast->Ref);
+        free(PatchLast);
+    }
+    PatchLast = NULL;
+    while (ExportList) {
+        ExportLast = ExportList;
+        ExportList = ExportLast->Next;
+        free(ExportLast->Name);
+        free(ExportLast);
+    }
+    ExportLast = NULL;
+}
+
 /*--- Codedatei eroeffnen --------------------------------------------------*/
 
 void OpenFile(void) {
     Word h;
+
+    DiscardPatches();
 
     errno   = 0;
     PrgFile = fopen(OutName, OPENWRMODE);
